@@ -53,7 +53,7 @@ def rv32_tab : List (Mn × Sem) := [
 def rv32_extra : List String := []
 def rv32_notes : List String := []
 
-/-- from amoco/arch/riscv/rv64i/asm.py (sha256 d3bc9d021a9cbf9a) -/
+/-- from amoco/arch/riscv/rv64i/asm.py (sha256 105be8b3748f15df) -/
 def rv64_tab : List (Mn × Sem) := [
   (.LUI, [(.assign .pc (.bin .add .pc .ilen)), (.guardNZ 0 (.assign (.opnd 0) (.opnd 1)))]),
   (.AUIPC, [(.guardNZ 0 (.assign (.opnd 0) (.bin .add .pc (.opnd 1)))), (.assign .pc (.bin .add .pc .ilen))]),
@@ -94,7 +94,19 @@ def rv64_tab : List (Mn × Sem) := [
   (.AND, [(.assign .pc (.bin .add .pc .ilen)), (.guardNZ 0 (.assign (.opnd 0) (.bin .and (.opnd 1) (.opnd 2))))]),
   (.FENCE, [(.assign .pc (.bin .add .pc .ilen))]),
   (.FENCE_I, [(.assign .pc (.bin .add .pc .ilen))]),
-  (.ECALL, [(.assign .pc (.bin .add .pc .ilen))])
+  (.ECALL, [(.assign .pc (.bin .add .pc .ilen))]),
+  (.LWU, [(.assign .pc (.bin .add .pc .ilen)), (.assign (.opnd 0) (.zext (.opnd 1) 64))]),
+  (.LD, [(.assign .pc (.bin .add .pc .ilen)), (.assign (.opnd 0) (.sext (.opnd 1) 64))]),
+  (.SD, [(.assign .pc (.bin .add .pc .ilen)), (.assign (.opnd 0) (.opnd 1))]),
+  (.ADDIW, [(.assign .pc (.bin .add .pc .ilen)), (.guardNZ 0 (.assign (.opnd 0) (.sext (.bin .add (.slc (.opnd 1) 0 32) (.opnd 2)) 64)))]),
+  (.SLLIW, [(.assign .pc (.bin .add .pc .ilen)), (.guardNZ 0 (.assign (.opnd 0) (.sext (.bin .shl (.slc (.opnd 1) 0 32) (.opnd 2)) 64)))]),
+  (.SRLIW, [(.assign .pc (.bin .add .pc .ilen)), (.guardNZ 0 (.assign (.opnd 0) (.sext (.bin .shr (.slc (.opnd 1) 0 32) (.opnd 2)) 64)))]),
+  (.SRAIW, [(.assign .pc (.bin .add .pc .ilen)), (.guardNZ 0 (.assign (.opnd 0) (.sext (.bin .sar (.slc (.opnd 1) 0 32) (.opnd 2)) 64)))]),
+  (.ADDW, [(.assign .pc (.bin .add .pc .ilen)), (.guardNZ 0 (.assign (.opnd 0) (.sext (.bin .add (.slc (.opnd 1) 0 32) (.slc (.opnd 2) 0 32)) 64)))]),
+  (.SUBW, [(.assign .pc (.bin .add .pc .ilen)), (.guardNZ 0 (.assign (.opnd 0) (.sext (.bin .sub (.slc (.opnd 1) 0 32) (.slc (.opnd 2) 0 32)) 64)))]),
+  (.SLLW, [(.assign .pc (.bin .add .pc .ilen)), (.guardNZ 0 (.assign (.opnd 0) (.sext (.bin .shl (.slc (.opnd 1) 0 32) (.bin .and (.opnd 2) (.int 31))) 64)))]),
+  (.SRLW, [(.assign .pc (.bin .add .pc .ilen)), (.guardNZ 0 (.assign (.opnd 0) (.sext (.bin .shr (.slc (.opnd 1) 0 32) (.bin .and (.opnd 2) (.int 31))) 64)))]),
+  (.SRAW, [(.assign .pc (.bin .add .pc .ilen)), (.guardNZ 0 (.assign (.opnd 0) (.sext (.bin .sar (.slc (.opnd 1) 0 32) (.bin .and (.opnd 2) (.int 31))) 64)))])
 ]
 /-- `i_` functions that are not base-ISA mnemonics (not judged by C06) -/
 def rv64_extra : List String := []
